@@ -236,6 +236,7 @@ class Blob:
     """File contents as a descriptor both sides can expand."""
 
     hardlink_of = None
+    symlink_of = None
 
     def __init__(self, kind, a=0, b=0, raw=b"", mods=()):
         self.kind, self.a, self.b, self.raw, self.mods = kind, a, b, raw, tuple(mods)
